@@ -27,6 +27,7 @@ type Engine struct {
 	typeByID        map[int64]types.Type
 	candEnable      map[string]Term
 	kindIDs         map[string]int64
+	candParent      map[string]string
 	allowLoopInline bool
 	funcs           map[string]*ssa.Function // specKey -> function
 	loadSecs        float64
@@ -57,7 +58,7 @@ func loadEngine(repo string, overlay map[string][]byte) (*Engine, error) {
 	prog, spkgs := ssautil.AllPackages(pkgs, ssa.InstantiateGenerics|ssa.GlobalDebug)
 	prog.Build()
 	e := &Engine{prog: prog, fset: prog.Fset, pkgs: pkgs, spkgs: spkgs, byName: map[string]*ssa.Package{},
-		typeIDs: map[string]int64{}, typeByID: map[int64]types.Type{}, kindIDs: map[string]int64{}, candEnable: map[string]Term{}, funcs: map[string]*ssa.Function{}}
+		typeIDs: map[string]int64{}, typeByID: map[int64]types.Type{}, kindIDs: map[string]int64{}, candParent: map[string]string{}, candEnable: map[string]Term{}, funcs: map[string]*ssa.Function{}}
 	for _, p := range prog.AllPackages() {
 		if strings.HasPrefix(p.Pkg.Path(), "github.com/protobom/protobom/pkg") {
 			if strings.HasSuffix(p.Pkg.Path(), "fakes") {
